@@ -59,6 +59,9 @@ impl DetectProp for C04 {
         }
         c
     }
+    fn extra(&self, rep: &mut Report, drv: &mut Driver, rng: &mut Rng, thorough: bool) {
+        md::run_mess_t3(rep, drv, rng, if thorough { 6000 } else { 600 });
+    }
     fn oracle(&self, cx: &mut Ctx, case: &Case, raw: &RealRaw) {
         let s = &case.sett;
         let ms = match raw {
